@@ -121,7 +121,7 @@ def register(reg):
                 " result == _v and stream.pos == old(stream.pos) + enc_len(_v))",
                 # truncated data are refused: a strict prefix of an encoding never decodes silently
                 "refuses_truncation": "not (written(old(stream.data), old(stream.pos), _v) and old(stream.pos) + enc_len(_v) > old(stream.length))",
-                "frame": "stream.length == old(stream.length) and stream.pos >= old(stream.pos) and stream.pos <= stream.length",
+                "frame": "stream.length == old(stream.length) and stream.pos > old(stream.pos) and stream.pos <= stream.length",
             },
             raises=[C.Raises("SerializationError", mode="may"), C.Raises("IndexError", when="True", mode="only_if")],
             result=C.Int(),
@@ -131,6 +131,117 @@ def register(reg):
             properties=("C18",),
         )
     )
+
+    # ---------------------------------------------------------------- bool / bytes
+    reg.add(
+        C.Contract(
+            f"{M}:writeBool",
+            params=dict(value=C.Bool(), stream=C.Stream(at_end=True)),
+            setup=setup_axioms,
+            ensures={
+                "layout": "written(stream.data, old(stream.pos), ite(value, 1, 0)) and stream.pos == old(stream.pos) + 1",
+                "prefix_kept": "same_prefix(stream.data, old(stream.data), old(stream.pos))",
+            },
+            modifies=["stream"],
+            properties=("C18",),
+        )
+    )
+    reg.add(
+        C.Contract(
+            f"{M}:readBool",
+            params=dict(stream=C.Stream(), _v=C.Bool()),
+            setup=setup_axioms,
+            ghost_inst={"readInt": {"_v": "ite(_v, 1, 0)"}},
+            ensures={
+                "decodes": "implies(written(old(stream.data), old(stream.pos), ite(_v, 1, 0)) and old(stream.pos) + 1 <= old(stream.length),"
+                " result == _v and stream.pos == old(stream.pos) + 1)",
+                "refuses_truncation": "not (old(stream.pos) >= old(stream.length))",
+            },
+            raises=[C.Raises("SerializationError", mode="may"), C.Raises("IndexError", when="True", mode="only_if")],
+            result=C.Bool(),
+            modifies=["stream.pos"],
+            properties=("C18",),
+        )
+    )
+    reg.add(
+        C.Contract(
+            f"{M}:writeBytes",
+            params=dict(value=C.Bytes(), stream=C.Stream(at_end=True)),
+            setup=setup_axioms,
+            # assumption (listed): byte strings are shorter than 2**31 (the variable-width length class is
+            # covered by writeInt's own contract, not re-proved through the payload copy)
+            requires=["len(value) <= 2147483647"],
+            ensures={
+                "length_prefix": "written(stream.data, old(stream.pos), len(value))",
+                "payload": "bytes_at_stream(stream.data, old(stream.pos) + enc_len(len(value)), value)",
+                "advance": "stream.pos == old(stream.pos) + enc_len(len(value)) + len(value) and stream.length == stream.pos",
+                "prefix_kept": "same_prefix(stream.data, old(stream.data), old(stream.pos))",
+            },
+            raises=[C.Raises("SerializationError", when="not encodable(len(value))", mode="iff")],
+            modifies=["stream"],
+            replay=replay_writeBytes,
+            properties=("C18",),
+        )
+    )
+    reg.add(
+        C.Contract(
+            f"{M}:readBytes",
+            params=dict(stream=C.Stream(), _b=C.Bytes()),
+            setup=setup_axioms,
+            ghost_inst={"readInt": {"_v": "len(_b)"}},
+            inline=["_readExactly"],
+            ensures={
+                "decodes": "implies(written(old(stream.data), old(stream.pos), len(_b))"
+                " and bytes_at_stream(old(stream.data), old(stream.pos) + enc_len(len(_b)), _b)"
+                " and old(stream.pos) + enc_len(len(_b)) + len(_b) <= old(stream.length),"
+                " result == _b and stream.pos == old(stream.pos) + enc_len(len(_b)) + len(_b))",
+                "refuses_truncation": "not (written(old(stream.data), old(stream.pos), len(_b))"
+                " and old(stream.pos) + enc_len(len(_b)) + len(_b) > old(stream.length))",
+            },
+            raises=[C.Raises("SerializationError", mode="may"), C.Raises("IndexError", when="True", mode="only_if")],
+            result=C.Bytes(),
+            modifies=["stream.pos"],
+            replay=replay_readBytes,
+            properties=("C18",),
+        )
+    )
+    # ---------------------------------------------------------------- float
+    reg.add(
+        C.Contract(
+            f"{M}:writeFloat",
+            params=dict(value=C.Real(), stream=C.Stream(at_end=True)),
+            ensures={
+                "layout": "double_at(stream.data, old(stream.pos), value)",
+                "advance": "stream.pos == old(stream.pos) + 8 and stream.length == stream.pos",
+                "prefix_kept": "same_prefix(stream.data, old(stream.data), old(stream.pos))",
+            },
+            modifies=["stream"],
+            properties=("C18",),
+        )
+    )
+    reg.add(
+        C.Contract(
+            f"{M}:readFloat",
+            params=dict(stream=C.Stream(), _x=C.Real()),
+            ensures={
+                "decodes": "implies(double_at(old(stream.data), old(stream.pos), _x) and old(stream.pos) + 8 <= old(stream.length),"
+                " result == _x and stream.pos == old(stream.pos) + 8)",
+                "refuses_truncation": "not (old(stream.pos) + 8 > old(stream.length))",
+            },
+            raises=[C.Raises("struct.error", cls_obj=True, mode="may")],
+            result=C.Real(),
+            modifies=["stream.pos"],
+            replay=replay_readFloat,
+            properties=("C18",),
+        )
+    )
+
+    @reg.spec
+    def double_at(D, p, x):
+        from pyvc.builtins_model import isdouble
+        from pyvc.values import toz3
+
+        return simplify_sv(isdouble(D, tonum(p), toz3(x, want_real=True)))
 
 
 # -------------------------------------------------------------------------------------------------
@@ -193,4 +304,66 @@ def replay_readInt(inputs, clause):
         return None
     if len(rest) < len(enc) and enc[: len(rest)] == rest:
         return f"readInt silently decoded {r} from {rest!r}, a strict prefix of enc_int({v}) = {enc!r}"
+    return None
+
+
+def replay_writeBytes(inputs, clause):
+    from scenic.core import serialization as S
+
+    b = bytes(inputs["value"])
+    st = io.BytesIO()
+    S.writeBytes(b, st)
+    exp = ref_enc_int(len(b)) + b
+    if st.getvalue() != exp:
+        return f"writeBytes({b!r}) wrote {st.getvalue()!r}, format says {exp!r}"
+    return None
+
+
+def replay_readBytes(inputs, clause):
+    from scenic.core import serialization as S
+
+    data = bytes(inputs["stream"]["data"])
+    pos = inputs["stream"]["pos"]
+    b = bytes(inputs["_b"])
+    rest = data[pos:]
+    enc = ref_enc_int(len(b)) + b
+    st = io.BytesIO(rest)
+    try:
+        r = S.readBytes(st)
+    except (IndexError, S.SerializationError):
+        if rest[: len(enc)] == enc:
+            return f"readBytes raised on a complete encoding of {b!r}"
+        return None
+    except Exception as e:
+        return f"readBytes failed with {type(e).__name__} on {rest!r}"
+    if rest[: len(enc)] == enc:
+        if r != b or st.tell() != len(enc):
+            return f"readBytes decoded {r!r} from the encoding of {b!r}"
+        return None
+    if len(rest) < len(enc) and enc[: len(rest)] == rest:
+        return f"readBytes silently decoded {r!r} from {rest!r}, a strict prefix of the encoding {enc!r}"
+    # the model's payload bytes beyond the stream end are arbitrary: retry with the longest matching payload
+    hdr = ref_enc_int(len(b))
+    if rest[: len(hdr)] == hdr and len(rest) < len(enc):
+        return f"readBytes silently decoded {r!r} from {rest!r}: announced {len(b)} payload bytes, only {len(rest) - len(hdr)} present"
+    return None
+
+
+def replay_readFloat(inputs, clause):
+    import struct
+
+    from scenic.core import serialization as S
+
+    data = bytes(inputs["stream"]["data"])
+    pos = inputs["stream"]["pos"]
+    rest = data[pos:]
+    st = io.BytesIO(rest)
+    try:
+        r = S.readFloat(st)
+    except (struct.error, S.SerializationError):
+        return None
+    except Exception as e:
+        return f"readFloat failed with {type(e).__name__} on {rest!r}"
+    if len(rest) < 8:
+        return f"readFloat silently decoded {r!r} from the {len(rest)}-byte input {rest!r}"
     return None
